@@ -261,6 +261,14 @@ func MontStructured(m *big.Int) []V {
 		out = append(out, V{oracle.FromMont(oracle.Limbs(r), m), "mont-structured"})
 	}
 
+	for _, r := range ResonantStored(m) {
+		out = append(out, V{oracle.FromMont(oracle.Limbs(r), m), "redc-resonant"})
+	}
+
+	for _, v := range ResonantForToMontgomery(m) {
+		out = append(out, V{v, "tomont-resonant"})
+	}
+
 	return out
 }
 
@@ -417,4 +425,165 @@ func PairOnCarry(r *Rng, m *big.Int) (V, V) {
 	}
 
 	return V{oracle.FromMont(oracle.Limbs(ra), m), cls}, V{oracle.FromMont(oracle.Limbs(rb), m), cls}
+}
+
+// ---------------------------------------------------------------------------------------------------------------------
+// Resonant quotient digits of the word-by-word Montgomery reduction.
+//
+// Each round of the Fiat reduction adds m*N to the running value, where the 64-bit quotient digit m is fixed by the low
+// limb. For a handful of digits m the product m*N has a limb that is exactly 0 or 2^64-1; the carry chains of that round
+// then propagate (or die) over a whole limb, which is where a "simplified" carry chain goes wrong. Those digits are the
+// solutions of  limb_j(m*N) = target  and are found with the Euclid-like solver below, not by search.
+
+// solveModInterval returns the smallest x >= 0 with l <= (a*x mod m) <= r (0 <= l <= r < m), or nil.
+func solveModInterval(a, m, l, r *big.Int) *big.Int {
+	if l.Sign() == 0 {
+		return new(big.Int)
+	}
+
+	a = new(big.Int).Mod(a, m)
+	if a.Sign() == 0 {
+		return nil
+	}
+
+	if new(big.Int).Lsh(a, 1).Cmp(m) > 0 {
+		return solveModInterval(new(big.Int).Sub(m, a), m, new(big.Int).Sub(m, r), new(big.Int).Sub(m, l))
+	}
+
+	t := new(big.Int).Add(l, a)
+	t.Sub(t, bi(1))
+	t.Div(t, a) // ceil(l/a)
+
+	if new(big.Int).Mul(t, a).Cmp(r) <= 0 {
+		return t
+	}
+
+	ma := new(big.Int).Mod(m, a)
+
+	na := new(big.Int)
+	if ma.Sign() != 0 {
+		na.Sub(a, ma)
+	}
+
+	y := solveModInterval(na, a, new(big.Int).Mod(l, a), new(big.Int).Mod(r, a))
+	if y == nil {
+		return nil
+	}
+
+	x := new(big.Int).Mul(m, y)
+	x.Add(x, l)
+	x.Add(x, a)
+	x.Sub(x, bi(1))
+
+	return x.Div(x, a)
+}
+
+// ResonantDigits returns the 64-bit quotient digits m for which some limb of m*N is 0 or 2^64-1 (and m±1).
+func ResonantDigits(n *big.Int) []uint64 {
+	w := pow2(64)
+	seen := map[uint64]bool{}
+
+	var out []uint64
+
+	add := func(x *big.Int) {
+		if x == nil || x.Sign() <= 0 || x.Cmp(w) >= 0 {
+			return
+		}
+
+		for d := int64(-1); d <= 1; d++ {
+			v := addI(x, d)
+			if v.Sign() > 0 && v.Cmp(w) < 0 && !seen[v.Uint64()] {
+				seen[v.Uint64()] = true
+				out = append(out, v.Uint64())
+			}
+		}
+	}
+
+	for j := 1; j <= 3; j++ {
+		mod := pow2(64 * (j + 1))
+		a := new(big.Int).Mod(n, mod)
+
+		for _, tgt := range []*big.Int{bi(0), addI(w, -1), pow2(63), addI(pow2(63), -1)} {
+			lo := new(big.Int).Lsh(tgt, uint(64*j))
+			hi := addI(new(big.Int).Add(lo, pow2(64*j)), -1)
+
+			if lo.Sign() == 0 {
+				lo = bi(1)
+			}
+
+			add(solveModInterval(a, mod, lo, hi))
+		}
+	}
+
+	return out
+}
+
+// ResonantStored returns stored (Montgomery-domain) values < n whose reduction uses a resonant quotient digit in one of
+// its rounds: the limb that fixes the digit is -m*N mod 2^64, the limbs below it are zero, the limbs above structured.
+func ResonantStored(n *big.Int) []*big.Int {
+	w := pow2(64)
+	above := []uint64{0, 1, 1 << 63, ^uint64(0) - 1, ^uint64(0), 0xb007f3c9021e8b07, 0x5555555555555555}
+
+	var out []*big.Int
+
+	for _, m := range ResonantDigits(n) {
+		a0 := new(big.Int).Mul(new(big.Int).SetUint64(m), n)
+		a0.Neg(a0)
+		a0.Mod(a0, w)
+
+		for pos := 0; pos < 4; pos++ {
+			for i, u1 := range above {
+				for _, u2 := range []uint64{0, ^uint64(0), above[(i+3)%len(above)]} {
+					var l [4]uint64
+
+					l[pos] = a0.Uint64()
+
+					for k := pos + 1; k < 4; k++ {
+						if (k-pos)%2 == 1 {
+							l[k] = u1
+						} else {
+							l[k] = u2
+						}
+					}
+
+					if v := oracle.FromLimbs(l); v.Cmp(n) < 0 {
+						out = append(out, v)
+					}
+				}
+			}
+		}
+	}
+
+	return out
+}
+
+// ResonantForToMontgomery returns CANONICAL values whose conversion into the Montgomery domain (a multiplication by
+// R^2 mod N) uses a resonant quotient digit in its first round.
+func ResonantForToMontgomery(n *big.Int) []*big.Int {
+	w := pow2(64)
+	r2 := new(big.Int).Mod(new(big.Int).Mul(two256, two256), n)
+	r20 := new(big.Int).Mod(r2, w)
+
+	inv := new(big.Int).ModInverse(r20, w)
+	if inv == nil {
+		return nil
+	}
+
+	var out []*big.Int
+
+	for _, m := range ResonantDigits(n) {
+		a0 := new(big.Int).Mul(new(big.Int).SetUint64(m), n)
+		a0.Neg(a0)
+		a0.Mod(a0, w)
+		x0 := new(big.Int).Mod(new(big.Int).Mul(a0, inv), w)
+
+		for _, up := range []uint64{0, 1, ^uint64(0), 1 << 63} {
+			l := [4]uint64{x0.Uint64(), up, up, up >> 1}
+			if v := oracle.FromLimbs(l); v.Cmp(n) < 0 {
+				out = append(out, v)
+			}
+		}
+	}
+
+	return out
 }
